@@ -94,7 +94,8 @@ pub(super) fn split_off_back(
     let mut curr_pipeline_rev = Vec::new();
     'pipeline: while let Some(transform) = pipeline.pop() {
         // stop if split is needed
-        let split = is_split_required(&transform, &mut following_transforms);
+        let split = takes_in_another_order(&transform, &curr_pipeline_rev)
+            || is_split_required(&transform, &mut following_transforms);
         if split {
             log::debug!("split required after {}", transform.as_str());
             log::debug!(".. following={following_transforms:?}");
@@ -325,6 +326,18 @@ pub(super) fn anchor_split(
     second.insert(0, SqlTransform::From(riid));
 
     CidRedirector::redirect_pipeline(second, ctx)
+}
+
+/// Consecutive takes are combined into one LIMIT/OFFSET, which is only valid
+/// when they select rows by the same order.
+fn takes_in_another_order(transform: &SqlTransform, following: &[SqlTransform]) -> bool {
+    let SqlTransform::Super(Transform::Take(take)) = transform else {
+        return false;
+    };
+    following.iter().any(|t| match t {
+        SqlTransform::Super(Transform::Take(later)) => later.sort != take.sort,
+        _ => false,
+    })
 }
 
 /// Determines whether a pipeline must be split at a transform to
